@@ -202,8 +202,9 @@ class OperationTrait(TraitImpl, IOperation):
 		if method is None:
 			return None
 
-		# XXX 算術演算以外(比較/ビット演算)は返却型が左右で必ず同じであり、戻り値の型の選別が不要であるため省略する
-		if not instance.types.operations.arthmetical(operator.tokens):
+		# XXX 比較/シフト演算は返却型が左右で必ず同じであり、戻り値の型の選別が不要であるため省略する
+		# XXX | ^ & は算術演算と同様に引数の型で選別する (bool | int は bool.__or__(bool) -> bool ではなく int.__or__(bool) -> int)
+		if not instance.types.operations.arthmetical(operator.tokens) and operator.tokens not in ['|', '^', '&']:
 			return method.returns(value)
 
 		parameter = method.parameter_at(0, value)
